@@ -19,6 +19,8 @@ RULE = ("for every predicate: matrices built to have the property exactly (sizes
         "margin delta in [1e-3, 1], and images under property-preserving transformations (unitary conjugation, permutation similarity, ...); helper identities on "
         "random conformable operands; signature (predicate, class, size, field); non-trivial = negatives and transformed positives")
 ASSUMPTIONS = [
+    "tolerance-rule cases: the documented rule is numpy.allclose's |a - b| <= atol + rtol |b| with defaults rtol=1e-5, atol=1e-8; verdicts are required only a "
+    "factor 4 inside / outside it (worst entry), for is_hermitian, is_symmetric, is_anti_hermitian, is_identity and the Hermiticity gate of is_positive_semidefinite",
     "verdicts required only for exact positives (error <= 1e-12) and negatives violating by >= 1e-3; is_projection is read as idempotency with Hermitian-projector "
     "positives only; is_positive_definite positives are bitwise Hermitian",
     "helper identities: exact (array_equal) for index movement, 1e-9 relative for products, 1e-7 for Gram round trips through factorisations",
@@ -31,6 +33,8 @@ def cases(tier):
     for p in PREDICATES:
         for r in range(reps):
             out.append(("pred", p, r))
+    for r in range(60 if tier == "quick" else 12000):
+        out.append(("tolrule", r))
     for h in ["vec", "tensor", "gram", "todm", "commutant", "majorizes", "spark", "norms"]:
         for r in range(20 if tier == "quick" else 4000):
             out.append(("helper", h, r))
@@ -40,8 +44,82 @@ def cases(tier):
 def run(ctx, spec, rng):
     if spec[0] == "pred":
         globals()["_p_" + spec[1]](ctx, spec[2], rng)
+    elif spec[0] == "tolrule":
+        _run_tolrule(ctx, spec[1], rng)
     else:
         globals()["_h_" + spec[1]](ctx, spec[2], rng)
+
+
+# ------------------------------------------------------------------------------------------------ documented tolerance rule
+def _q(a, b, rtol, atol):
+    """Defect of "a == b" relative to the documented numpy.allclose rule |a - b| <= atol + rtol |b| (worst entry)."""
+    num = np.abs(a - b)
+    den = atol + rtol * np.abs(b)
+    with np.errstate(divide="ignore", invalid="ignore"):
+        q = np.where(num == 0, 0.0, np.where(den > 0, num / den, np.inf))
+    return float(q.max())
+
+
+TOL_FORMS = {
+    "is_hermitian": lambda m: (m, m.conj().T),
+    "is_symmetric": lambda m: (m, m.T),
+    "is_anti_hermitian": lambda m: (1j * m, (1j * m).conj().T),
+    "is_identity": lambda m: (m, np.eye(m.shape[0])),
+    "is_positive_semidefinite": lambda m: (m, m.conj().T),
+}
+
+
+def _run_tolrule(ctx, r, rng):
+    """Matrices at scales 1e-4 .. 1e4 that meet / miss the defining equation by a factor 4 on either side of the documented tolerance
+    rule |a - b| <= atol + rtol |b|, with the tolerances defaulted, given by keyword and given positionally in the documented order."""
+    name = list(TOL_FORMS)[r % len(TOL_FORMS)]
+    d = int(rng.integers(2, 6))
+    cplx = bool(rng.integers(0, 2)) and name != "is_symmetric"
+    scale = [1e-4, 1e-2, 1.0, 1e2, 1e4][int(rng.integers(0, 5))]
+    if name == "is_identity":
+        scale = 1.0
+        base = np.eye(d, dtype=complex if cplx else float)
+    elif name == "is_positive_semidefinite":
+        g = gen.rmat(rng, (d, d), cplx)
+        base = scale * ref.herm(g @ g.conj().T + d * np.eye(d))
+    elif name == "is_symmetric":
+        g = rng.uniform(0.5, 1.5, size=(d, d)) * rng.choice([-1, 1], size=(d, d))
+        base = scale * (g + g.T) / 2
+    else:
+        g = rng.uniform(0.5, 1.5, size=(d, d)) * rng.choice([-1, 1], size=(d, d)) + (1j * rng.uniform(0.5, 1.5, size=(d, d)) if cplx else 0)
+        base = scale * ref.herm(g)
+        if name == "is_anti_hermitian":
+            base = 1j * base
+    tols = [("default", None, None), ("atol-only", 0.0, float(10.0 ** rng.integers(-6, -1)) * scale), ("rtol-only", float(10.0 ** rng.integers(-6, -1)), 0.0),
+            ("both", float(10.0 ** rng.integers(-7, -2)), float(10.0 ** rng.integers(-9, -3)))]
+    label, rtol, atol = tols[int(rng.integers(0, len(tols)))]
+    if name == "is_identity" and label == "rtol-only":
+        label, rtol, atol = tols[0]  # off-diagonal targets are 0: a purely relative tolerance admits nothing there
+    eff_r, eff_a = (1e-5, 1e-8) if rtol is None else (rtol, atol)
+    i, j = (int(v) for v in rng.permutation(d)[:2])
+    for side, factor in (("inside", 0.25), ("outside", 4.0)):
+        m = np.array(base, dtype=complex if (cplx or name == "is_anti_hermitian") else float)
+        a0, b0 = TOL_FORMS[name](m)
+        target = factor * (eff_a + eff_r * abs(b0[i, j]))
+        m[i, j] += target
+        a1, b1 = TOL_FORMS[name](m)
+        q = _q(a1, b1, eff_r, eff_a)
+        if not (q <= 0.5 or q >= 2):
+            ctx.evals["tolrule:margin-unclear"] += 1
+            continue
+        want = q <= 0.5
+        form = "default" if rtol is None else ["keyword", "positional"][int(rng.integers(0, 2))]
+        args, kw = (m,), {}
+        if form == "keyword":
+            kw = {"rtol": rtol, "atol": atol}
+        elif form == "positional":
+            args = (m, rtol, atol)
+        got = ctx.call(_fn(name), *args, **kw)
+        if got is FAILED:
+            continue
+        ctx.check("pred:" + name, bool(got) == want, sig=("tolrule", label, form, side, scale), nt=True, mech=f"{name}:verdict-ignores-documented-tolerance-rule[{label},{form}]",
+                  detail={"predicate": name, "scale": scale, "rtol": rtol, "atol": atol, "form": form, "side": side, "defect/tolerance": q, "want": want, "got": bool(got)})
+    ctx.sample("pred:" + name, {"class": "tolerance-rule", "scale": scale, "tolerances": label})
 
 
 # ------------------------------------------------------------------------------------------------ predicate plumbing
